@@ -88,6 +88,13 @@ Theorem prox_tree_firmly_nonexpansive : forall (e : @fexpr R) (sigma : R) (x1 x2
 Proof. exact fprox_firmly_nonexpansive_scalar. Qed.
 Print Assumptions prox_tree_firmly_nonexpansive.
 
+(* hence the proximal map is non-expansive (1-Lipschitz) in the norm of the functional's own space *)
+Theorem prox_tree_nonexpansive : forall (e : @fexpr R) (sigma : R) (x1 x2 p1 p2 : list R),
+  wf e -> 0 < sigma -> length x1 = fdim e -> length x2 = fdim e ->
+  fprox e (SScal sigma) x1 = Ok p1 -> fprox e (SScal sigma) x2 = Ok p2 ->
+  wnormsq (fweights e) (vsub p1 p2) <= wnormsq (fweights e) (vsub x1 x2).
+Proof. exact fprox_nonexpansive_scalar. Qed.
+
 (* ... and for per-point / per-component steps in the step-weighted metric *)
 Theorem prox_tree_firmly_nonexpansive_general_step : forall (e : @fexpr R) (s : @sig R) (x1 x2 p1 p2 : list R),
   wf e -> sig_ok e s -> length x1 = fdim e -> length x2 = fdim e ->
